@@ -182,6 +182,11 @@ class SetupPeer:
             m4 = self._odd_state(m4, 4, fault[1])
         elif name == "m4-error":
             m4 = self._with_error(m4, fault[1])
+        if self.case.get("mfi") and acc.m3_ok and name in ("none", "m4-reorder"):
+            # a Pair-Setup-with-Auth accessory adds its MFi proof (EncryptedData) to M4, before or after the SRP proof
+            blob = (T_ENC, h("mfi", self.k) * 4)
+            i = next((j for j, (t, _) in enumerate(m4) if t == T_PROOF), len(m4))
+            m4 = m4[:i] + [blob] + m4[i:] if self.case["mfi"] == "before" else m4[:i + 1] + [blob] + m4[i + 1:]
         self.stage = "m4"
         return tlv_enc(m4)
 
@@ -345,6 +350,22 @@ def enum_ids(tier):
         for dec_ in ("ip", "ble"):
             yield {"k": SEED * 49979687 + i, "code": "111-22-333", "acc_id": "unused", "acc_id_hex": hx, "ios_id": "ios-%d" % i, "decode": dec_, "with_auth": True, "salt_zeros": 0,
                    "fault": ["none"]}
+
+
+def enum_mfi(tier):
+    for i, mfi in enumerate(("before", "after")):
+        for dec_ in ("ip", "ble"):
+            yield {"k": SEED * 15487469 + i, "code": "333-22-111", "acc_id": "AA:BB:CC:DD:EE:FF", "ios_id": "ios-mfi", "decode": dec_, "with_auth": True, "salt_zeros": 0,
+                   "fault": ["none"], "mfi": mfi}
+        for tr in ("ip", "ble", "coap"):
+            yield {"k": SEED * 15487469 + 10 + i, "code": "333-22-111", "acc_id": "AA:BB:CC:DD:EE:FF", "ios_id": "ios-mfi", "transport": tr, "with_auth": True, "salt_zeros": 0,
+                   "fault": ["none"], "mfi": mfi}
+
+
+def run_mfi(case, R):
+    R.nt()
+    R.cls("mfi-proof:" + case["mfi"])
+    (run_e2e if "transport" in case else run_case)(case, R)
 
 
 def enum_tape(tier):
@@ -640,6 +661,8 @@ FAULTS = sorted(BREAKING | PRESERVING)
 def cases(draw):
     case = {"k": draw(st.integers(0, 2**32)), "code": draw(CODES), "acc_id": draw(IDS), "ios_id": draw(IOS_IDS),
             "decode": draw(st.sampled_from(["ip", "ble"])), "with_auth": draw(st.booleans()), "salt_zeros": draw(st.sampled_from([0, 0, 1, 3, 16]))}
+    if draw(st.integers(0, 5)) == 0:
+        case["mfi"] = draw(st.sampled_from(["before", "after"]))
     if draw(st.integers(0, 11)) == 0:      # an identifier that is not valid UTF-8
         case["acc_id_hex"] = draw(st.sampled_from(["4143432dfe", "4143432dff", "ff", "c3", "41c328", "e282", "f0288c28"]))
     name = draw(st.sampled_from(FAULTS + ["none"] * 3))
@@ -750,6 +773,7 @@ SPEC = Property(
               space="every fault family with its parameter grid (quick: sampled bit positions; thorough: every bit of salt/proof/M6, every 8th bit of B)", min_nontrivial=60),
         Layer("generated", run_case, strategy=cases, n={"quick": 2400, "thorough": 40000}, min_nontrivial=300),
         Layer("non-text-identifiers", run_case, enumerate=enum_ids, exhaustive=True, space="10 accessory identifiers that are not valid UTF-8 (or contain NUL) x {ip, ble}: refused, or returned exactly"),
+        Layer("mfi-proof-in-m4", run_mfi, enumerate=enum_mfi, exhaustive=True, space="honest Pair-Setup-with-Auth exchanges whose M4 carries an MFi proof before / after the SRP proof; generator level x {ip, ble} and end to end x 3 transports"),
         Layer("tape-replay", run_tape, enumerate=enum_tape, exhaustive=True,
               space="an honest pair-setup recorded, then its M2/M4/M6 replayed to a second pair-setup of the same process; SRP public values of the two exchanges distinct", min_nontrivial=4),
         Layer("leading-zero-exchanges", run_corpus, enumerate=enum_corpus, exhaustive=True,
